@@ -19,9 +19,22 @@ import (
 
 var errRandFail = errors.New("verif: randomness source exhausted")
 
-type streamReader struct{ data []byte }
+type streamReader struct {
+	data   []byte
+	calls  int
+	failAt int // transient fault: this Read call (1-based) fails once, consuming nothing
+}
+
+// randFailAt, when non-zero, makes the next pinned randomness source fail transiently at that Read call
+var randFailAt int
+var randCalls int // Read calls made on the last pinned source
 
 func (s *streamReader) Read(p []byte) (int, error) {
+	s.calls++
+	randCalls = s.calls
+	if s.failAt != 0 && s.calls == s.failAt {
+		return 0, errRandFail
+	}
 	if len(s.data) == 0 {
 		return 0, errRandFail
 	}
@@ -37,7 +50,7 @@ func (s *streamReader) Read(p []byte) (int, error) {
 // returns how many bytes were left unread.
 func withRand(stream []byte, f func()) (left int) {
 	old := cryptorand.Reader
-	sr := &streamReader{data: append([]byte{}, stream...)}
+	sr := &streamReader{data: append([]byte{}, stream...), failAt: randFailAt}
 	cryptorand.Reader = sr
 	defer func() { cryptorand.Reader = old; left = len(sr.data) }()
 	f()
